@@ -5,7 +5,10 @@ N=$1; shift
 PROPS=${*:-C01 C02 C03 C04 C05 C06 C07 C08 C09 C10 C11 C12 C13 C14 C15 C16 C17 C18 C19 C20}
 cd /verif
 BK=$(mktemp -d /verif/.seeded_backup.XXXX); cp -r evidence replays $BK/ 2>/dev/null
-trap 'git -C /repo checkout -- . ; rm -rf /verif/evidence /verif/replays; mv $BK/evidence $BK/replays /verif/ 2>/dev/null; rmdir $BK; echo "[reverted]"' EXIT INT TERM
+DONE=0
+cleanup() { [ $DONE = 1 ] && return; DONE=1; git -C /repo checkout -- . ; rm -rf /verif/evidence /verif/replays; mv $BK/evidence $BK/replays /verif/ 2>/dev/null; rmdir $BK; echo "[reverted]"; }
+trap cleanup EXIT
+trap 'cleanup; exit 130' INT TERM
 git -C /repo diff --quiet || { echo "/repo is dirty"; exit 2; }
 git -C /repo apply "/verif/benign/$N.diff" || exit 2
 ( cd /repo && cargo test --workspace --no-fail-fast --offline 2>&1 | grep -E "^test result|FAILED" | sort | uniq -c | grep -v " 0 passed" )
